@@ -1,0 +1,5 @@
+//go:build !verif
+
+package agentstorage
+
+func verifPoint(string) {}
